@@ -774,6 +774,9 @@ func (l *Gpos3_1) encode() []byte {
 	}
 	coverageOffset := total
 	total += l.Cov.EncodeLen()
+	if coverageOffset > 0xFFFF {
+		panic("coverage offset overflow")
+	}
 
 	res := make([]byte, 0, total)
 
